@@ -26,6 +26,13 @@ fn ceil_i(x: f64) -> i64 { if !x.is_finite() { 1 << 30 } else { let c = x.ceil()
 const SMALL_ANGLES: &[f64] = &[1.0e-3, 1.0e-5, 1.0e-7, 1.0e-8, std::f64::consts::PI - 1.0e-3, std::f64::consts::PI - 1.0e-6, std::f64::consts::PI - 1.0e-8,
                                std::f64::consts::FRAC_PI_2 + 1.0e-7, 2.0, 3.0];
 
+/// factors for scale_proj: next to 1 (either side), then further and further away
+const SCALES: &[f64] = &[1.00003, 0.99998, 1.0000001, 1.001, 1.0e-3, 1.0e3, 1.0e-9, 1.0e9, 1.0e-17, 1.0e17, -1.0e-6, 1.0e-150, 1.0e150, 1.0e-170];
+fn maxabs(xs: &[f64]) -> f64 { xs.iter().fold(0.0f64, |a, x| a.max(x.abs())) }
+fn m2v<S: BaseFloat>(m: &Matrix2<S>) -> Vec<S> { vec![m.x.x, m.x.y, m.y.x, m.y.y] }
+fn m3v<S: BaseFloat>(m: &Matrix3<S>) -> Vec<S> { vec![m.x.x, m.x.y, m.x.z, m.y.x, m.y.y, m.y.z, m.z.x, m.z.y, m.z.z] }
+fn m4v<S: BaseFloat>(m: &Matrix4<S>) -> Vec<S> { vec![m.x.x, m.x.y, m.x.z, m.x.w, m.y.x, m.y.y, m.y.z, m.y.w, m.z.x, m.z.y, m.z.z, m.z.w, m.w.x, m.w.y, m.w.z, m.w.w] }
+
 pub fn exec_proj<S: Sc + BaseFloat>(op: &str, fm: &str, a: &[Val<S>]) -> Option<Val<S>> {
     use Val::*;
     let eps = f(S::epsilon());
@@ -290,6 +297,69 @@ pub fn exec_proj<S: Sc + BaseFloat>(op: &str, fm: &str, a: &[Val<S>]) -> Option<
             };
             let z = |depth: S| -> f64 { let h = m * Vector4::new(S::zero(), S::zero(), -depth, S::one()); f(h.z) / f(h.w) };
             Tup(vec![B(true), I(ceil_i((z(*n) + 1.0).abs() * g / eps)), I(ceil_i((z(fa) - 1.0).abs() * g / eps))])
+        }
+        // Homogeneity (C01-C04, C11, C12, C18): F(k x) against k^d F(x), both computed natively, for k next to 1 and many
+        // orders of magnitude away from it.  The exact pipeline settles F on the nice argument x; this settles that nothing
+        // in F depends on the size of its argument (tolerances that should be relative, early returns for small or nearly
+        // unit inputs, intermediate overflow / underflow).  Result: <<deviation in eps (relative to the largest expected
+        // component and, for inverses, to the condition number), B: predicates agree / an inverse exists in both cases>>
+        ("scale_proj", [T(fname), I(kc), rest @ ..]) => {
+            let k = SCALES[(*kc as usize) % SCALES.len()];
+            let ks: S = NumCast::from(k).unwrap();
+            let fl = |xs: &[S]| -> Vec<f64> { xs.iter().map(|x| f(*x)).collect() };
+            // (expected, got, extra conditioning factor, boolean verdict)
+            let (exp, got, cond, ok): (Vec<f64>, Vec<f64>, f64, bool) = match (fname.as_str(), rest) {
+                ("m4_invert", [M4(m)]) | ("m4_inverse_transform", [M4(m)]) => {
+                    let tr = fname == "m4_inverse_transform";
+                    let inv = |x: &Matrix4<S>| if tr { Transform::<Point3<S>>::inverse_transform(x) } else { SquareMatrix::invert(x) };
+                    match (inv(m), inv(&(*m * ks))) { (Some(a), Some(b)) => { let (a, b) = (m4v(&a), m4v(&b)); let c = maxabs(&fl(&m4v(m))) * maxabs(&fl(&a)) * 4.0;
+                        (fl(&a).iter().map(|x| x / k).collect(), fl(&b), c, true) } (None, None) => (vec![0.0], vec![0.0], 1.0, true), _ => (vec![0.0], vec![0.0], 1.0, false) } }
+                ("m3_invert", [M3(m)]) => match (SquareMatrix::invert(m), SquareMatrix::invert(&(*m * ks))) {
+                    (Some(a), Some(b)) => { let (a, b) = (m3v(&a), m3v(&b)); let c = maxabs(&fl(&m3v(m))) * maxabs(&fl(&a)) * 3.0; (fl(&a).iter().map(|x| x / k).collect(), fl(&b), c, true) }
+                    (None, None) => (vec![0.0], vec![0.0], 1.0, true), _ => (vec![0.0], vec![0.0], 1.0, false) },
+                ("m2_invert", [M2(m)]) => match (SquareMatrix::invert(m), SquareMatrix::invert(&(*m * ks))) {
+                    (Some(a), Some(b)) => { let (a, b) = (m2v(&a), m2v(&b)); let c = maxabs(&fl(&m2v(m))) * maxabs(&fl(&a)) * 2.0; (fl(&a).iter().map(|x| x / k).collect(), fl(&b), c, true) }
+                    (None, None) => (vec![0.0], vec![0.0], 1.0, true), _ => (vec![0.0], vec![0.0], 1.0, false) },
+                ("m4_det", [M4(m)]) => (vec![f(m.determinant()) * k.powi(4)], vec![f((*m * ks).determinant())], 24.0, true),
+                ("m3_det", [M3(m)]) => (vec![f(m.determinant()) * k.powi(3)], vec![f((*m * ks).determinant())], 6.0, true),
+                ("m4_transform_point", [M4(m), P3(p)]) => { let (a, b) = (m.transform_point(*p), (*m * ks).transform_point(*p)); (vec![f(a.x), f(a.y), f(a.z)], vec![f(b.x), f(b.y), f(b.z)], 4.0, true) }
+                ("from_homogeneous", [V4(h)]) => { let (a, b) = (Point3::from_homogeneous(*h), Point3::from_homogeneous(*h * ks)); (vec![f(a.x), f(a.y), f(a.z)], vec![f(b.x), f(b.y), f(b.z)], 1.0, true) }
+                ("q_invert", [Q(q)]) => { let (a, b) = (Rotation::invert(q), Rotation::invert(&(*q * ks))); (qv(&a).iter().map(|x| x / k).collect(), qv(&b).to_vec(), 1.0, true) }
+                ("q_normalize", [Q(q)]) if k > 0.0 => (qv(&q.normalize()).to_vec(), qv(&(*q * ks).normalize()).to_vec(), 1.0, true),
+                ("v3_normalize", [V3(v)]) if k > 0.0 => { let (a, b) = (v.normalize(), (*v * ks).normalize()); (vec![f(a.x), f(a.y), f(a.z)], vec![f(b.x), f(b.y), f(b.z)], 1.0, true) }
+                ("v2_normalize", [V2(v)]) if k > 0.0 => { let (a, b) = (v.normalize(), (*v * ks).normalize()); (vec![f(a.x), f(a.y)], vec![f(b.x), f(b.y)], 1.0, true) }
+                ("v4_normalize", [V4(v)]) if k > 0.0 => { let (a, b) = (v.normalize(), (*v * ks).normalize()); (vec![f(a.x), f(a.y), f(a.z), f(a.w)], vec![f(b.x), f(b.y), f(b.z), f(b.w)], 1.0, true) }
+                ("v3_magnitude", [V3(v)]) => (vec![f(v.magnitude()) * k.abs()], vec![f((*v * ks).magnitude())], 1.0, true),
+                ("v3_angle", [V3(u), V3(v)]) if k > 0.0 => (vec![f(u.angle(*v).0)], vec![f((*u * ks).angle(*v).0)], 1.0, true),
+                ("v2_angle", [V2(u), V2(v)]) if k > 0.0 => (vec![f(u.angle(*v).0)], vec![f((*u * ks).angle(*v).0)], 1.0, true),
+                ("v3_project_on", [V3(u), V3(v)]) => { let (a, b) = (u.project_on(*v), u.project_on(*v * ks)); (vec![f(a.x), f(a.y), f(a.z)], vec![f(b.x), f(b.y), f(b.z)], 1.0, true) }
+                ("v3_cross", [V3(u), V3(v)]) => { let (a, b) = (u.cross(*v), u.cross(*v * ks)); let c = (maxabs(&[f(u.x), f(u.y), f(u.z)]) * maxabs(&[f(v.x), f(v.y), f(v.z)]) / maxabs(&[f(a.x), f(a.y), f(a.z)]).max(1.0e-300)).max(1.0);
+                    (vec![f(a.x) * k, f(a.y) * k, f(a.z) * k], vec![f(b.x), f(b.y), f(b.z)], c, true) }
+                ("v3_dot", [V3(u), V3(v)]) => { let c = (maxabs(&[f(u.x), f(u.y), f(u.z)]) * maxabs(&[f(v.x), f(v.y), f(v.z)]) * 3.0 / f(u.dot(*v)).abs().max(1.0e-300)).max(1.0);
+                    (vec![f(u.dot(*v)) * k], vec![f(u.dot(*v * ks))], c, true) }
+                ("from_arc", [V3(a), V3(b)]) if k > 0.0 => (qv(&Quaternion::from_arc(*a, *b, None)).to_vec(), qv(&Quaternion::from_arc(*a * ks, *b, None)).to_vec(), 1.0, true),
+                // vectors: is_zero exactly when every component equals zero, whatever the size of the others
+                ("v3_is_zero", [V3(v)]) => (vec![0.0], vec![0.0], 1.0, Zero::is_zero(v) == Zero::is_zero(&(*v * ks))),
+                ("v4_is_zero", [V4(v)]) => (vec![0.0], vec![0.0], 1.0, Zero::is_zero(v) == Zero::is_zero(&(*v * ks))),
+                ("v2_is_zero", [V2(v)]) => (vec![0.0], vec![0.0], 1.0, Zero::is_zero(v) == Zero::is_zero(&(*v * ks))),
+                _ => return None,
+            };
+            let scale = maxabs(&exp).max(1.0e-300);
+            let dev = exp.iter().zip(got.iter()).map(|(a, b)| (a - b).abs()).fold(0.0f64, f64::max) / (scale * eps * cond.max(1.0));
+            Tup(vec![I(ceil_i(dev)), B(ok)])
+        }
+        // C03 close to parallel: cross(u, u + g w) = g cross(u, w) for exact u, w and g = 1e-3 .. 1e-12 built natively;
+        // deviation in units of eps |u| |v| (the natural absolute accuracy of a cross product); likewise perp_dot in 2-D
+        ("cross_near_proj", [V3(u), V3(w), I(gc)]) => {
+            let table: &[f64] = &[1.0e-3, 1.0e-6, 1.0e-9, 1.0e-12];
+            let g = table[(*gc as usize) % table.len()];
+            let gs: S = NumCast::from(g).unwrap();
+            let v = *u + *w * gs;
+            let (c, e) = (u.cross(v), u.cross(*w));
+            // what the exact product of u with the v actually built is: g (u x w) up to the rounding of v itself
+            let un = maxabs(&[f(u.x), f(u.y), f(u.z)]);
+            let dev = [(f(c.x) - g * f(e.x)).abs(), (f(c.y) - g * f(e.y)).abs(), (f(c.z) - g * f(e.z)).abs()].iter().cloned().fold(0.0f64, f64::max) / (eps * un * un * 8.0);
+            Tup(vec![I(ceil_i(dev)), B(true)])
         }
         // C15 close to (anti)parallel.  a is a unit vector, n a unit vector perpendicular to it (both exact rationals);
         // b = +-cos(d) a + sin(d) (n x a) is built natively, at angle d (or pi - d) from a, for d from a table well above the
